@@ -251,6 +251,11 @@ example : (changeTo ⟨0, [], [⟨0, 5, 5, [2], []⟩], ⟨0, 1⟩⟩ exEnv exSt
     (validate ⟨0, [], [⟨0, 5, 0, [2], []⟩], ⟨0, 2⟩⟩ exEnv exState).2 = .ok ∧
     (validate ⟨0, [], [⟨0, 5, 0, [2], []⟩], ⟨0, 2⟩⟩ exEnv exState).1.dstor = 0 := by decide
 example : (changeTo ⟨2, [], [], ⟨0, 1⟩⟩ exEnv exState).2 = .errIndex := by decide
+-- the HTTP app's Start fails AFTER both of its listeners were bound (certificate management cannot
+-- be started, fault 6): rejected, and nothing of it is left
+example : (changeTo ⟨0, [], [⟨3, 9, 6, [2, 4], []⟩], ⟨0, 0⟩⟩ ⟨true, false, 0, [], [3], [3]⟩ exState).2 = .errStart ∧
+    answers (changeTo ⟨0, [], [⟨3, 9, 6, [2, 4], []⟩], ⟨0, 0⟩⟩ ⟨true, false, 0, [], [3], [3]⟩ exState).1 = answers exState ∧
+    (bindAll 1 ⟨3, 9, 6, [2, 4], []⟩ [] [2, 4] exState).2 = true := by decide
 -- "unchanged"
 example : (changeTo exOld ⟨false, false, 0, [], [], []⟩ exState).2 = .same := by decide
 -- the HTTP app's Start fails at its SECOND listener (address 1 held by somebody else, address 2
